@@ -12,7 +12,7 @@ ASSUMPTIONS = [
     'comments are never coalesced',
     'one representative per character class / name pool, rotated by VERIF_SEED',
 ]
-EXTRA = ('neigh', 'char', 'args', 'nest', 'sibs')
+EXTRA = ('neigh', 'char', 'args', 'nest', 'sibs', 'long')
 
 
 def check_doc(acc, src, items):
@@ -66,7 +66,7 @@ SIGNATURES = {}
 def coverage(tier, total):
     return {
         'rule': 'every L_wf document of: %s, plus the neighbour layer (all ordered pairs of constructs x 4 separators x '
-                'every container), the character layer, the sibling layer (4-8 siblings) and the nest layer (two container kinds alternating to depth 5..40); canonical tree of the parse compared with the generating '
+                'every container), the character layer, the sibling layer (4-8 siblings), six long documents and the nest layer (two container kinds alternating to depth 5..40); canonical tree of the parse compared with the generating '
                 'tree; distinct = distinct canonical trees' % ', '.join('%s <= %d nodes' % p for p in layers.PLAN[tier]),
         'layers': dict(total.hist),
         'representatives': gram.Names(seed()).describe(),
